@@ -353,7 +353,13 @@ impl<'v> StarlarkValue<'v> for StarlarkStr {
             Ok(None) => return None,
             Err(e) => return Some(Err(e)),
         };
-        let mut result = String::with_capacity(self.len() * cmp::max(0, l) as usize);
+        // The length of a string is an `i32` (see `length`), and a heap cannot hold a value of 4GiB:
+        // refuse a repetition whose result would be longer, instead of panicking when allocating it.
+        let len = match self.len().checked_mul(cmp::max(0, l) as usize) {
+            Some(len) if len <= i32::MAX as usize => len,
+            _ => return Some(Err(ValueError::IntegerOverflow.into())),
+        };
+        let mut result = String::with_capacity(len);
         for _i in 0..l {
             result.push_str(self)
         }
